@@ -10,13 +10,13 @@ PROPS = {
                       "D (NEON, 4) so that array sizes, MAX_SIMD_DEGREE asserts and buffer obligations are discharged for each",
         "level_note": "NOT decided: that the linked kernels satisfy their contract (C05, assumed); build.rs feature->cfg mapping "
                       "and Platform::detect's CPUID logic are outside any contract (trusted)",
-        "units": {"quick": [v("tree"), v("hasher"), v("spec_lemmas")],
+        "units": {"quick": [v("tree"), v("hasher"), v("spec_lemmas"), g("kernels")],
                   "thorough": [v("tree", "B"), v("tree", "C"), v("tree", "D"), v("hasher", "B"), v("hasher", "C"),
                                v("hasher", "D"), v("xof", "C")]},
         "explanation": "The result of hash / Hasher / OutputReader is proved equal to a platform-independent spec function "
                        "for all Platform values and SIMD degrees; configurations differ only in constants and in which "
                        "(assumed) kernel is called.",
-        "uncovered": ["kernel correctness (C05)", "build.rs / Cargo feature plumbing", "CPU feature detection",
+        "uncovered": ["kernel correctness (C05): assumed; the kernel sources are pinned by sha256 (guard:kernels) and a change of them is decided only by the directed search (platform family over all SIMD feature sets)", "build.rs / Cargo feature plumbing", "CPU feature detection",
                       "prefer_intrinsics vs assembly flavours differ only in which assumed kernel is linked"],
         "assumptions": [SIMD_ASSUMPTION, EXTRACTION],
     },
